@@ -1,6 +1,14 @@
 """Lemmas over the spec (no code involved): the Boolean-algebra laws of C05, stated over `sem` (which C01 ties to the code).
 Inductive facts are given as base + step; the induction principle over the naturals is the (standard) meta-rule."""
-from pyvc.dsl import contract
+from pyvc.dsl import contract as _contract
+
+SUB = ['sem_nth', 'sem_attrs', 'sem_ids', 'sem_classes', 'sem_range', 'sem_tag', 'sem_rel', 'sem_empty', 'sem_root']
+
+
+def contract(qual, **kw):
+    """The algebra lemmas only use the conjunction/disjunction structure of sem: the sub-matcher meanings stay uninterpreted."""
+    kw.setdefault('opaque_specs', SUB)
+    return _contract(qual, **kw)
 from pyvc.types import INT, BOOL, STR, TSeq
 from pyvc.tree import NODE, CSSMATCH, SELLIST, SEL, NSMAP
 
